@@ -17,6 +17,9 @@ void vf_havoc(void * p, size_t n);
 void vf_assume(bool c);
 // property assertion; id identifies the assertion inside the harness
 void vf_assert(bool c, int id);
+// harness-side invariant / precondition (e.g. the representation invariant of an inductive step): when it can fail the run cannot decide the
+// property on this tree -> reported as INCONCLUSIVE (exit 2), never as a VIOLATION
+void vf_require(bool c, int id);
 // reachability goal (vacuity guard); every goal < the declared count must be hit by some path
 void vf_cover(int goal);
 // observation for engine/native trace comparison (translation validation of witnesses)
